@@ -62,6 +62,8 @@ type answer struct {
 	Info string   `json:"info,omitempty"`
 	// Mutated: memory reachable from the shared Program / the internals of a shared Symbol changed
 	Mutated bool `json:"mutated,omitempty"`
+	// Contract: an eval-declared var was created in a names map owned by the Program (rendering of the scope chain)
+	Contract string `json:"contract,omitempty"`
 }
 
 var caseNo int
@@ -95,6 +97,17 @@ func main() {
 
 // runOne executes prg in vm and renders the completion canonically.
 func runOne(vm *goja.Runtime, prg *goja.Program) (res string) {
+	probe := goja.VerifC16InstallStashProbe(vm, prg)
+	defer func() {
+		// the compiler contract of the names maps, observed on the real heap: an eval that declares a var must find
+		// a private names map on the stash bindVars targets (see Names.lean `hOK`)
+		for _, p := range *probe {
+			if strings.HasSuffix(p, "target=Vs") || strings.HasSuffix(p, "target=Bs") {
+				res += " NAMES-CONTRACT-BROKEN(" + p + ")"
+				break
+			}
+		}
+	}()
 	defer func() {
 		if r := recover(); r != nil {
 			res = "gopanic:" + common.OneLine(fmt.Sprint(r))
@@ -196,6 +209,16 @@ func runProg(c *tcase) answer {
 		return a
 	}
 	iso := runOne(goja.New(), prg2)
+	for _, r := range append([]string{base, iso}, res...) {
+		if i := strings.Index(r, "NAMES-CONTRACT-BROKEN("); i >= 0 {
+			a.OK = false
+			a.Contract = r[i:]
+			if j := strings.Index(a.Contract, ")"); j > 0 {
+				a.Contract = a.Contract[:j+1]
+			}
+			break
+		}
+	}
 	if iso != base {
 		a.OK = false
 		a.Diff = append(a.Diff, fmt.Sprintf("sequential run of the shared Program differs from an isolated compile+run: %q vs %q", base, iso))
@@ -287,6 +310,14 @@ func mkVal(s *valSpec) (goja.Value, error) {
 func mkVals(specs []valSpec) ([]goja.Value, error) {
 	vals := make([]goja.Value, len(specs))
 	for i := range specs {
+		if specs[i].T == "same" { // the same value (identity) a second time
+			j := int(specs[i].I)
+			if j < 0 || j >= i {
+				return nil, fmt.Errorf("bad alias index")
+			}
+			vals[i] = vals[j]
+			continue
+		}
 		v, err := mkVal(&specs[i])
 		if err != nil {
 			return nil, err
@@ -633,6 +664,15 @@ func runForeign(c *tcase) (a answer) {
 		sl := []interface{}{obj}
 		_ = rb.Set("a", &sl)
 		v, err := rb.RunString("a[0]")
+		res = fromErr(err, func() string { return classify(v) })
+	case "SliceSpareCap": // a Go slice with spare capacity that the script grows: the pushed and the old element are both converted lazily
+		sl := append(make([]interface{}, 0, 8), 1, obj)
+		_ = rb.Set("a", &sl)
+		v, err := rb.RunString("a.push(2); a[1]")
+		res = fromErr(err, func() string { return classify(v) })
+	case "SliceTwice": // the same Object reachable twice
+		_ = rb.Set("a", []interface{}{obj, obj})
+		v, err := rb.RunString("var first; try { first = a[0] } catch(e) { first = undefined } a[1]")
 		res = fromErr(err, func() string { return classify(v) })
 	case "CallArg":
 		fn, err := rb.RunString("(function(x){ return x })")
